@@ -813,10 +813,12 @@ class BeliefPropagation(Inference):
             marginal_2 = getattr(self.clique_beliefs[edge[1]], operation)(
                 list(frozenset(edge[1]) - sepset), inplace=False
             )
-            if (
-                marginal_1 != marginal_2
-                or marginal_1 != self.sepset_beliefs[sepset_key]
-            ):
+            # Potentials are only defined up to a constant factor, so the beliefs are
+            # compared with a tolerance relative to their scale.
+            atol = 1e-8 * float(abs(marginal_1.values).max())
+            if not marginal_1.__eq__(
+                marginal_2, atol=atol
+            ) or not marginal_1.__eq__(self.sepset_beliefs[sepset_key], atol=atol):
                 return False
         return True
 
